@@ -298,7 +298,11 @@ class Cid(object):
             self._location.advance_line()
         if self.data_format is None:
             raise errors.InterfaceError("data format must be specified", self._location)
-        self.data_format.validate()
+        try:
+            self.data_format.validate()
+        except errors.InterfaceError as error:
+            # Contradicting properties show only now; report them at the end of the CID.
+            raise errors.InterfaceError(str(error), self._location)
         if len(self.field_names) == 0:
             raise errors.InterfaceError("fields must be specified", self._location)
 
